@@ -450,7 +450,7 @@ pub fn run_case(case: &Case) -> CaseResult {
 			if let Some(h) = window[1] {
 				let reported = pos_reported * case.sound_rate as f64;
 				let slack = if post_seek { 2.0 } else { 1.0 };
-				if (reported - h as f64).abs() > slack + 1e-6 {
+				if !((reported - h as f64).abs() <= slack + 1e-6) {
 					res.fail(Violation::new(
 						"position",
 						"position-off-by-more-than-a-frame",
@@ -526,7 +526,7 @@ pub fn run_case(case: &Case) -> CaseResult {
 						|| o.right.to_bits() != want.right.to_bits() && !(o.right == 0.0 && want.right == 0.0)
 				} else {
 					let tol = 2e-5 * maxw;
-					(got_l - expected_l).abs() > tol || (got_r + expected_l).abs() > tol
+					!((got_l - expected_l).abs() <= tol) || !((got_r + expected_l).abs() <= tol)
 				};
 				if bad {
 					res.fail(Violation::new(
